@@ -140,6 +140,15 @@ example : CryptoGlue.toyPrims.Std ∧ CryptoGlue.toyPrims.LawfulPrims ∧ Crypto
   ⟨CryptoGlue.toyPrims_ok.1, CryptoGlue.toyPrims_ok.2,
    ⟨fun _ _ _ _ _ => rfl, fun _ _ _ _ _ => rfl, fun _ _ _ _ _ => rfl⟩⟩
 
+/-- The four `aescbcaead` constructors as regenerated by C03's factgen: the AES key has a legal
+size (so `aes.NewCipher(encKey)` in `Seal`/`Open` cannot fail and `panic(err)` is dead), the tag
+is no longer than the hash output (`h.Sum(nil)[:l]` is in range), and key = MAC key ‖ ENC key. -/
+theorem aescbcaead_params_sound :
+    Generated.C03.aescbcaeadParams.all (fun p =>
+      (p.encKeySize == 16 || p.encKeySize == 24 || p.encKeySize == 32) &&
+      decide (p.tagSize ≤ p.hashBits / 8) && decide (0 < p.tagSize) && decide (p.macKeySize = p.tagSize)) = true ∧
+    Generated.C03.aescbcaeadParams.length = 4 := by decide
+
 /-- Every theorem the C07 inventory cites from another property's module exists there. -/
 theorem cited_elsewhere_exist :
     (NoPanic.Inventory.citedElsewhere.map (·.2)).all
@@ -147,7 +156,8 @@ theorem cited_elsewhere_exist :
         Kit.CronSpec.next_terminates, Kit.CryptoGlue.dispatch_never_out_of_range,
         Kit.C07.encryptSymmetric_never_panics, Kit.C07.decryptSymmetric_never_panics,
         Kit.C07.aeskw_wrap_never_panics, Kit.C07.pad_never_panics, Kit.C07.unpad_never_panics,
-        Kit.C07.cbcHmacOpen_never_panics, Kit.C07.cbcHmacSeal_never_panics]) = true := by
+        Kit.C07.cbcHmacOpen_never_panics, Kit.C07.cbcHmacSeal_never_panics,
+        Kit.C07.aescbcaead_params_sound]) = true := by
   decide +kernel
 
 end Kit.C07
